@@ -4,6 +4,7 @@ pub mod dec;
 pub mod gen;
 pub mod gen_pic;
 pub mod hist;
+pub mod io;
 pub mod model;
 pub mod props;
 pub mod runner;
